@@ -101,4 +101,14 @@ void thresholds_are_independent()
     (void)nitro::log::filter::severity_filter<record_b, 0>::min_severity();
     (void)nitro::log::filter::severity_filter<record, 1>::min_severity();
 }
+
+// record layouts with only one of the two attributes the statement sets itself (R10.5): severity without tag, tag without severity
+using ts_attr = nitro::log::timestamp_clock_attribute<std::chrono::system_clock>;
+using record_sev_only = nitro::log::record<nitro::log::message_attribute, nitro::log::severity_attribute, ts_attr>;
+// (the layout with a tag but no severity is a must-compile cell of tl_C10.cpp: m8)
+using log_sev_only = nitro::log::logger<record_sev_only, formatter, nitro::log::sink::Null, f_sev>;
+void attribute_layouts()
+{
+    log_sev_only::info() << "severity, no tag";
+}
 } // namespace vwit
